@@ -7,6 +7,11 @@ TDIR = os.path.join(BUILD, "kani")
 
 
 def _prep():
+    global CRATE
+    if REPO != "/repo":
+        src = os.path.join(VERIF, "kani"); CRATE = os.path.join(BUILD, "kani-crate")
+        shutil.rmtree(CRATE, ignore_errors=True); shutil.copytree(src, CRATE, ignore=shutil.ignore_patterns("target"))
+        open(os.path.join(CRATE, "Cargo.toml"), "w").write(open(os.path.join(src, "Cargo.toml.in")).read().replace("@REPO@", REPO))
     shutil.copyfile(os.path.join(REPO, "Cargo.lock"), os.path.join(CRATE, "Cargo.lock"))
     os.makedirs(BUILD, exist_ok=True)
 
